@@ -32,7 +32,7 @@ CHECKS = {
          "or shift makes the translation fail, which is reported for C10), so the translated windows are liftings of per-particle functions.",
     technique="Lean 4 theorems on List.map / lookup-by-identity; metamorphic + differential correspondence on the implementation",
     design="3/C10",
-    note="Partial in the sense of DESIGN 3/C10: the refinement 'numpy code = map of the per-particle rule' is established by testing, not by proof."),
+    note="Partial in the sense of DESIGN 3/C10: the refinement 'vectorised numpy code = map of the per-particle rule' is not a theorem. What is kernel-checked: the interpreters of every update_ibm give each masked / element-wise statement its per-particle meaning and the bridges equate that with the model (an interpreter has no operation for a reduction over particles, so a statistic taken over the set makes a statement text unknown and breaks the bridge); the cross-particle couplings that do exist (draw order, intersect1d in reposition) are explicit in Bridge.MemorySeq. That numpy's element-wise operations behave per element is established by the metamorphic tests."),
  "C08": dict(
     text="Proof: decision logic of the per-particle sediment state machine - exact sinking, settle-on-bed, rest, resuspension iff "
          "tau >= taucrit (tau = 1000*0.003*speed^2 from sqrt laws), never without taucrit, three-valued flag distinct and never back to 1 "
@@ -49,7 +49,7 @@ CHECKS = {
          "uniformity/variance are additionally tested with exact binomial / moment bounds (total false-alarm budget 1e-9).",
     technique="Lean 4 theorems (preimage counting, algebraic identities, induction on the sub-step loop); statistical tests with exact binomial bounds; draw-replay correspondence",
     design="3/C20",
-    note="The measure-theoretic step 'piecewise isometry with constant preimage count => uniform law invariant' is cited, not formalised."),
+    note="The measure-theoretic step is formalised for the uniform-increment walk with reflection (LadimProofs/C20Measure.lean, OnCode.chem_const_walk_wellmixed, OnCode.c20_chem_diffuse_const_wellmixed on the interpreted method body): Lebesgue measure on [0,H] is invariant. For the Gaussian-increment schemes (unbounded steps) and depth-varying K well-mixedness is statistical in the property and decided on the implementation."),
  "C09": dict(
     text="Proof: hatch time positive for every rate in [0,1] and every temperature (explicit quadratic x piecewise-linear model of the "
          "published table, reproduced at its 12 knots, clamped outside [2,10]); egg stage increment = dt/(days*86400) > 0 and activation "
@@ -99,7 +99,7 @@ CHECKS = {
          "tested on the implementation with exact binomial bounds (per-polygon shares, half-plane cuts, range bins; total alpha 1e-9).",
     technique="Lean 4 theorems (interval preimages, constant Jacobian, involution) + statistical tests with exact binomial bounds; draw-replay correspondence",
     design="3/C17",
-    note="'a.e.-bijection with constant Jacobian maps the uniform law to the uniform law' is cited, not formalised."),
+    note="The push-forward step is formalised (LadimProofs/C17Measure.lean: the fold preserves the uniform law of the unit square onto the unit triangle, the affine map scales volume by |det|, sample_uniform_on_triangle; OnCode.c17_point_uniform_in_triangle / c17_triangle_choice_probability on the interpreted sampler). One statement over the union of the polygons' triangles would need the tiling half of the external triangulation's contract and is decided statistically on the implementation."),
  "C01": dict(
     text="Proof: the table has sum(num) rows, every row has one cell per column, each group contributes exactly its count, the output "
          "rows are a permutation of the concatenated zero-filled group rows (for any sort) and are ordered by the date key, a cell under "
@@ -127,7 +127,7 @@ CHECKS = {
          "get_settled_particles against the model; SQLite through an in-memory database.",
     technique="Lean 4 theorems (list partition, counting by indicator sums, last-index search); differential correspondence",
     design="3/C19",
-    note="Weighted sums are conserved by the same partition argument but are checked numerically only (1e-9); netCDF/xarray/sqlite layers are exercised, not modelled."),
+    note="Weighted sums: LadimProofs/C19Weighted.lean and OnCode.c19_raster_weight_conserved (exact arithmetic; the floating-point sums are compared to 1e-9 in the correspondence). np.histogramdd, np.flip, xarray, netCDF4 and sqlite3 are parameters of the interpretation with reference instances; the real libraries are exercised by the correspondence."),
  "C12": dict(
     text="Proof for ALL masks, sizes, ocean distances and start cells: one dilation step is sound; k dilations hold n at a cell iff n <= k "
          "is the length of its shortest four-connected obstacle-free path to a source (induction on k over an inductive reachability "
@@ -202,12 +202,19 @@ def main():
         if pid in CHECKS and pid in OBLIGATIONS:
             c = dict(CHECKS[pid])
             if pid in BRIDGES:
-                nb = sum(len(BRIDGE_THEOREMS[b]) for b in BRIDGES[pid])
-                c["text"] = c["text"] + (" Bridge (second tie, translator): %d kernel-checked theorems (LadimProofs/Bridge/{%s}) state that the "
-                                         "hand-written model functions these theorems are about equal the statement windows / the statement order "
-                                         "of the update rules translated from /repo's current source on every run." % (nb, ",".join(b for b in BRIDGES[pid] if not b.startswith("../")))
-                              + (" On-code corollaries (LadimProofs/OnCode/%s.lean): property theorems restated with the hand-written function replaced by the generated one." % pid if any(b.startswith("../") for b in BRIDGES[pid]) else ""))
-                c["technique"] = c["technique"] + "; Python-AST-to-Lean translation of the code's statement windows regenerated each run with kernel-checked 'model = generated code' bridge theorems"
+                mods = [b for b in BRIDGES[pid] if not b.startswith("../")]
+                on = [b[3:] for b in BRIDGES[pid] if b.startswith("../")]
+                nb = sum(len(BRIDGE_THEOREMS[b]) for b in mods)
+                ne = sum(len(BRIDGE_THEOREMS["../" + b]) for b in on)
+                c["text"] = c["text"] + (" Second tie (translator, regenerated from /repo on every run): every function anchored by the property is "
+                                         "translated statement by statement (closed-form windows and statement sequences with guards); interpreters map each "
+                                         "statement TEXT to an operation (unknown text => no result) and %d kernel-checked bridge theorems "
+                                         "(LadimProofs/Bridge/{%s}) state 'interpretation of the current source = hand-written model function', so an edited, "
+                                         "reordered, re-guarded statement breaks an obligation of this property." % (nb, ",".join(mods))
+                              + (" On-code theorems (%d, LadimProofs/{%s}): the property's clauses stated directly about the interpretation of the "
+                                 "generated code (end-to-end files E2E_*), with non-vacuity examples." % (ne, ",".join(on)) if on else ""))
+                c["technique"] = c["technique"] + ("; Python-AST-to-Lean translation of the code's statements regenerated each run, sequence interpreters, "
+                                                   "kernel-checked 'interpretation of the source = model' bridge theorems and end-to-end theorems on the interpreted source")
             checks.append(dict(
                 property_id=pid,
                 quick_cmd="./check %s --tier quick" % pid,
